@@ -5,7 +5,7 @@ import NmVerif.Index.SelCommon
   Stable names:
     `Index.normalizeAxis1 axis dim : Option Nat`    index::normalize_axis (single axis; only used as a validity test here)
     `Index.shapeRoll shape axes : Option Shape`     index::shape_roll   (Nothing iff some axis is outside [-dim, dim))
-    `Index.normalizeRollIndex i n : Int`            the lambda `normalize_roll_index` (roll.hpp:118-128): ONE wrap only
+    `Index.normalizeRollIndex i n : Int`            the lambda `normalize_roll_index` (roll.hpp:118-131): C++ `%` then `+ n` if negative
     `Index.indexRollU shape d shifts axes : Option Idx` index::roll with an axis list (a single axis is the one-element list)
     `Index.rollView src shift axis : Option IxView`        view::roll(a, shift, axis)    single int axis
     `Index.rollAxesView src shifts axes : Option IxView`   view::roll(a, shifts, axes)   axis list; `shifts` already
@@ -13,8 +13,9 @@ import NmVerif.Index.SelCommon
     `Index.rollNoneView src shift : Option IxView`         view::roll(a, shift) = reshape(roll(flatten a, shift, 0), shape)
 
   Facts mirrored:
-    * `index = int(d[axis]) - shift`; `index < 0 ⇒ n + index`, `index ≥ n ⇒ index - n`, else unchanged — a single wrap,
-      so `|shift| > n` leaves the source axis (DESIGN F5); the value is then stored into a `size_t` index (`u64`).
+    * `index = int(d[axis]) - shift`; `index %= n` (truncating), `index < 0 ⇒ index + n` — a true modulo for `n > 0`
+      (the single-wrap defect DESIGN F5 was repaired in /repo by "fix: roll wraps shifts larger than the extent");
+      the value is then stored into a `size_t` index.
     * `shape[axis]`, `d[axis]`, `result[axis]` are addressed through `nmtools::at` (Python-style wrap), so negative
       axes work; every axis of the list reads `d` (not the partial result), so a repeated axis keeps only the last shift.
     * axis None: flatten (= reshape to `[size]`), roll along axis 0, reshape back.
@@ -31,11 +32,11 @@ def normalizeAxis1 (axis : Int) (dim : Nat) : Option Nat :=
 def shapeRoll (shape : Shape) (axes : List Int) : Option Shape :=
   if axes.all (fun a => (normalizeAxis1 a shape.length).isSome) then some shape else none
 
-/-- the lambda `normalize_roll_index(index, n)` -/
+/-- the lambda `normalize_roll_index(index, n)`: `index = index % n` (C++ `%` truncates towards zero: `Int.tmod`),
+    then `+ n` when the remainder is negative -/
 def normalizeRollIndex (index : Int) (n : Nat) : Int :=
-  if index < 0 then (n : Int) + index
-  else if (n : Int) ≤ index then index - (n : Int)
-  else index
+  let r := Int.tmod index (n : Int)
+  if r < 0 then r + (n : Int) else r
 
 /-- the loop over `(axis_i, shift_i)`; `res` starts as a copy of `d`; every step stores the (signed) wrapped index
     into the unsigned result; `none` = an `at` outside its container (UB) -/
